@@ -299,9 +299,12 @@ class Sym(Exec):
                 self.merge_into(st, c, s1, s2)
                 self.nofork -= 1
                 return NORMAL
-            except CannotMerge:
+            except CannotMerge as ex:
                 self.nofork -= 1
                 del self.obligations[nob:]
+                if getattr(self, "debug_merge", False):
+                    import traceback
+                    print("CannotMerge at line", n.get("_line"), traceback.format_exc().splitlines()[-4:])
             except Exception:
                 self.nofork -= 1
                 raise
@@ -435,6 +438,14 @@ class Sym(Exec):
             la, lb = o1.length, o2.length
             if la is not lb and not (is_z3(la) and is_z3(lb) and la.eq(lb)) and la != lb:
                 r.length = self._merge_val(c, as_int(la), as_int(lb))
+            return r
+        if getattr(o1, "kind", None) == "file" and getattr(o2, "kind", None) == "file":
+            r = o1.clone()
+            r.pos = self._merge_val(c, as_int(o1.pos), as_int(o2.pos))
+            r.size = self._merge_val(c, as_int(o1.size), as_int(o2.size))
+            if o1.closed is not o2.closed:
+                tb = lambda x: z3.BoolVal(x) if isinstance(x, bool) else x
+                r.closed = simp(z3.If(c, tb(o1.closed), tb(o2.closed)))
             return r
         raise CannotMerge()
 
@@ -771,6 +782,13 @@ class Sym(Exec):
         for (oid, leaf) in sorted(mods, key=lambda x: (x[0], str(x[1]))):
             o = st.mem.objs.get(oid)
             if o is None:
+                continue
+            if getattr(o, "kind", None) == "file":
+                # stream touched by the loop: its cursor at the head of an arbitrary iteration is arbitrary (>= 0)
+                if leaf and leaf[0] == "closed":
+                    raise Unsupported("fclose inside a loop with invariant")
+                o.pos = self.fresh("%s_%s_pos" % (tag, o.name), z3.IntSort())
+                st.assume(o.pos >= 0)
                 continue
             if isinstance(o, Cell):
                 if leaf:
